@@ -15,7 +15,7 @@ import (
 
 // condHeaderValues: the H set of C04 for a target whose current tag is cur ("" if none).
 func condHeaderValues(cur string) []string {
-	h := []string{"", "*", `"deadbeef"`, `"0"`, "abc", `""`, `"a"b"`}
+	h := []string{"", "*", `"deadbeef"`, `"0"`, "abc", `""`, `"a"b"`, `"*"`}
 	if cur != "" {
 		h = append(h, cur, `W/`+cur)
 	}
@@ -62,6 +62,17 @@ func c02Extra(quick bool) func(t harness.Tree, probe map[string]fileProbe) []har
 					for _, e := range []string{"unexpected-eof", "canceled", "cancel-only"} {
 						out = append(out, harness.Req{Method: "PUT", Path: p, Body: "WXYZ", Fault: &harness.BodyFault{Chunks: chunks, FailAt: k, Err: e}})
 					}
+				}
+			}
+			// the other methods with a body that fails (a handler that looks at the body only after its effect
+			// would answer an error with the tree already changed)
+			for _, k := range []int{0, 2} {
+				for _, e := range []string{"unexpected-eof", "canceled"} {
+					f := func() *harness.BodyFault { return &harness.BodyFault{Chunks: []int{2, 2}, FailAt: k, Err: e} }
+					out = append(out, harness.Req{Method: "DELETE", Path: p, Body: "WXYZ", Fault: f()})
+					out = append(out, harness.Req{Method: "MKCOL", Path: p, Body: "WXYZ", Fault: f()})
+					out = append(out, harness.Req{Method: "COPY", Path: p, Body: "WXYZ", Header: map[string]string{"Destination": "/copied-by-faulty-request"}, Fault: f()})
+					out = append(out, harness.Req{Method: "MOVE", Path: p, Body: "WXYZ", Header: map[string]string{"Destination": "/moved-by-faulty-request"}, Fault: f()})
 				}
 			}
 		}
